@@ -1194,6 +1194,38 @@ theorem C06_import_graph_walks_terminate (w : String) (mf : Bool) (hm : (w, mf) 
   have : mf = true := List.all_eq_true.mp hall (w, mf) hm
   rw [this]; exact visit_terminates u h hc marked e he
 
+theorem renameSearchG_origin_ring (fuel : Nat) :
+    renameSearchG .origin (tailRing 1 2) fuel (some 0) [0] 1 = none ∧
+    renameSearchG .origin (tailRing 1 2) fuel (some 0) [1, 0] 2 = none ∧
+    (∀ p, renameSearchG .origin (tailRing 1 2) fuel (some 0) p 1 = none) ∧
+    (∀ p, renameSearchG .origin (tailRing 1 2) fuel (some 0) p 2 = none) := by
+  induction fuel with
+  | zero => simp [renameSearchG]
+  | succ n ih =>
+    obtain ⟨_, _, h1, h2⟩ := ih
+    have e1 : tailRing 1 2 1 = [2] := by decide
+    have e2 : tailRing 1 2 2 = [1] := by decide
+    refine ⟨?_, ?_, ?_, ?_⟩ <;> (try intro p) <;>
+      simp [renameSearchG, renameSearchGList, e1, e2, h1, h2]
+
+/-- seeded regression C06-e1: a guard that only remembers the schema the search started in does not cut a ring of USE clauses
+that the start schema is not part of (facade → geometry ⇄ topology): the look-up of a name that is not found before the
+ring is entered again never returns, whatever the fuel; the guard over the whole call chain returns (`C06_rename_search_terminates`) -/
+theorem C06_rename_search_origin_guard_witness (fuel : Nat) :
+    renameSearchG .origin (tailRing 1 2) fuel none [] 0 = none := by
+  cases fuel with
+  | zero => simp [renameSearchG]
+  | succ n =>
+    have e0 : tailRing 1 2 0 = [1] := by decide
+    have h := (renameSearchG_origin_ring n).2.2.1 [0]
+    simp [renameSearchG, renameSearchGList, e0, h]
+
+/-- the regenerated answers agree: the Boolean the termination theorems use is "the guard is the call chain" -/
+theorem C06_rename_guard_kind_is_path : renameSearchGuardKind = .path ∧ renameSearchPathGuard = true := by decide
+
+example : renameSearchG .path (tailRing 1 2) 5 none [] 0 = some false := by
+  simp [renameSearchG, renameSearchGList, tailRing]
+
 /-! ## item-wise interface resolution as a whole -/
 
 structure ImportClosed (R S : List Nat) (g : ImportGraph) : Prop where
